@@ -771,6 +771,7 @@ func (x *Exec) builtin(fr *Frame, st *State, b *ssa.Builtin, c *ssa.CallCommon, 
 	case "delete":
 		if mv, ok := args[0].(VTerm); ok {
 			ms := x.eng.mapShape(c.Args[0].Type())
+			x.immutCheck(fr, st, typeKey(c.Args[0].Type()), mv.T, "map "+typeKey(c.Args[0].Type()), pos)
 			// delete on nil map is a no-op
 			s2 := st.clone()
 			x.mapDelete(s2, ms, mv.T, x.mapKeyTerm(args[1], ms))
